@@ -296,7 +296,7 @@ Qed.
 
 Theorem step_RS sp s e : wf_created s = true -> RS e s (fst (step sp s e)).
 Proof.
-  intros Hc. destruct e as [|i|n| | |x|tid reset|tid|i]; simpl.
+  intros Hc. destruct e as [|i|n| | |x|tid reset|tid|i|]; simpl.
   - (* EStart *) rewrite Hc. apply RS_refl.
   - (* EFire *)
     destruct (remove_first (item_eqb i) (pend s)) as [[it rest]|]; [|apply RS_refl].
@@ -359,6 +359,7 @@ Proof.
     + pose proof (do_result_M sp s aid res) as H.
       destruct (do_result sp s aid res) as [s1 o]. simpl in H.
       destruct o; simpl; try apply RM_refl. exact H.
+  - (* EEvict *) apply RS_refl.
 Qed.
 
 Theorem step_wf_moves sp s e :
